@@ -44,6 +44,21 @@ def streams : List (String × Stream) := ([] : List (String × Stream))
   |>.cons ("agg", AggStream.stream)
   |>.cons ("index", IndexStream.stream)
   |>.cons ("hnsw", HnswStream.stream)
+import Nervus.Driver.Engine
+import Nervus.Driver.Bulk
+import Nervus.Driver.Cypher14
+open Nervus.Driver
+
+/-- stream registry: one line per stream (kept one-per-line so that merges are unions) -/
+def streams : List (String × Stream) := [
+  ("okey", OKeyStream.stream),
+  ("engine", EngineStream.stream),
+  ("engine_reopen", EngineStream.streamReopen),
+  ("engine_compact", EngineStream.streamCompact),
+  ("engine_abort", EngineStream.streamAbort),
+  ("bulk", BulkStream.stream),
+  ("cypher14", Cypher14.stream)
+]
 
 def main (args : List String) : IO UInt32 := do
   match args with
